@@ -36,7 +36,24 @@ False alarms corrected while calibrating (oracle/generator, not dask):
 * -0.0 / 0.0 inside arrays and NaN payloads are "equal" for the oracle
   (no requirement), as the design asks; as Python floats they are distinct.
 * Timestamps of unit ``s`` overflowed ``.value``; the oracle reads ``asm8``.
-Genuine defects found are listed in PENDING (see findings_proposed/C12.md).
+* Object sharing: descriptions built in the shard reused one ``str`` object for
+  equal strings while the child interpreters got distinct objects from JSON;
+  pickle's memo made the tokens of mixed object arrays differ "across
+  interpreters".  The builder now interns equal str/bytes per built value, so
+  sharing is a function of the description only.
+* A RangeIndex step mutation changed the length of a Series index (pandas
+  refused the value): the mutation keeps the length; numpy/pandas refusals of a
+  description are ``rejected`` (ceiling 5 %), never a verdict.
+* copy/pickle results that the oracle does not call equal to the original
+  (big-endian arrays come back native, NaN dict keys) are skipped
+  (``copy_not_equal``): the clause speaks about faithful copies.
+* Blame descended into set/frozenset elements positionally although the
+  iteration orders differ and blamed ``int``/``str``; elements are matched by
+  value now.
+Genuine defects: 10 mechanisms on the unchanged tree (findings_proposed/C12.md
+sections 1-10; 1-4, 6-9 since repaired in /repo, 5 and 10 known findings) and
+one more on the repaired tree (section 11).  PENDING lists the labels that
+still fire.
 """
 from __future__ import annotations
 
@@ -86,52 +103,41 @@ TECHNIQUE = ("runtime monitoring: return-value oracle on tokenize() (structural 
 
 # genuine defects found on the unchanged tree (details: findings_proposed/C12.md)
 PENDING = {
-    # 1. normalize_array hashes ravel(order="K") bytes; strides are not part of the token
-    "collision:ndarray:same-buffer-bytes&different-memory-order":
-        "arrays of equal dtype/shape whose memory-order bytes coincide (C vs F order ...) share a token although their values differ",
-    "nondeterminism:pickle-roundtrip:noncontiguous-view":
-        "a view that is neither C- nor F-contiguous and its pickle round trip get different tokens",
-    "nondeterminism:pickle-roundtrip:broadcast-view": "a broadcast (zero-stride) view and its pickle round trip get different tokens",
-    "nondeterminism:deepcopy:broadcast-view": "a broadcast (zero-stride) view and its deep copy get different tokens",
-    "nondeterminism:deepcopy:DataFrame&block-not-c-contiguous":
-        "a frame holding an F-ordered block (DataFrame(ndarray, copy=False)) and its deep copy get different tokens",
-    # 2. "-".join(x.flat) for object arrays of str
-    "collision:object-array:joined-strings-coincide":
-        "object/str arrays ['a-b','c'] vs ['a','b-c'] (also as Index, Series, columns, MultiIndex level, categories) share a token",
-    # 3. normalize_mmap hashes the bytes only
-    "collision:memmap:different-shape": "memmaps with the same bytes and different shapes share a token",
-    "collision:memmap:different-dtype": "memmaps with the same bytes and different dtypes share a token",
-    # 4./5. normalize_dataframe tokenizes the block arrays without their column placement
-    "collision:DataFrame:same-blocks&different-column-block-assignment":
-        "frames with the same block arrays assigned to the column names differently share a token",
+    # recorded by the lead as known findings (known_findings.d/batch2_tokens.json); kept here for reference
     "nondeterminism:deepcopy:DataFrame&unconsolidated-blocks":
-        "df with several blocks of one dtype (after df[c]=...) and df.copy()/deepcopy get different tokens",
+        "known: df with several blocks of one dtype (after df[c]=...) and df.copy()/deepcopy get different tokens",
     "nondeterminism:deepcopy:DataFrame&unconsolidated-blocks&block-not-c-contiguous":
-        "same, frame also holds an F-ordered block",
-    # 6. normalize_extension_array == normalize_token(np.asarray(arr))
-    "collision:type:generic-extension-array-vs-ndarray": "IntegerArray/FloatingArray/BooleanArray/StringArray/NumpyExtensionArray share the token of np.asarray(arr)",
-    "collision:type:generic-extension-array-vs-generic-extension-array":
-        "extension arrays of different classes with the same np.asarray() share a token (Int64 [1,NA] vs Float64 [1.0,NA])",
-    "collision:extension-array:different-dtype:Int-vs-Int&has-NA": "Int64 [1,NA] vs Int32 [1,NA] share a token (also as Index / DataFrame column)",
-    "collision:extension-array:different-dtype:str-vs-string": "StringDtype(na_value=nan) vs StringDtype(na_value=NA) arrays share a token",
-    "collision:extension-array:different-values&equal-as-float64&has-NA":
-        "nullable integer arrays with NA whose values differ only beyond 2**53 share a token (asarray gives float64)",
-    # 7. sorted(..., key=str) leaves keys with equal str() in insertion / iteration order
-    "nondeterminism:equal-values:dict-insertion-order&keys-with-equal-str": "{1:'a','1':'b'} and {'1':'b',1:'a'} get different tokens",
-    "nondeterminism:equal-values:set-insertion-order&elements-with-equal-str": "equal sets holding 1 and '1' built in another order get different tokens",
-    "nondeterminism:deepcopy:set&elements-with-equal-str": "a set holding 1 and '1' and its deep copy get different tokens",
-    "nondeterminism:pickle-roundtrip:set&elements-with-equal-str": "a set holding 1 and '1' and its pickle round trip get different tokens",
-    # 8. frozenset has no normalizer (pickled in iteration order)
-    "nondeterminism:equal-values:frozenset-insertion-order": "frozenset([0, 8]) and frozenset([8, 0]) get different tokens",
-    "nondeterminism:deepcopy:frozenset&pickle-bytes-differ": "a frozenset with colliding hashes and its deep copy get different tokens",
-    "nondeterminism:pickle-roundtrip:frozenset&pickle-bytes-differ": "a frozenset with colliding hashes and its pickle round trip get different tokens",
-    "nondeterminism:rebuild-equal-value:frozenset&pickle-bytes-differ":
-        "frozenset({nan, True}) rebuilt with another NaN object (identity hash) iterates, pickles and tokenizes differently",
-    # 9. 0-d object arrays: (x.item(), dtype) goes through str()
-    "collision:0-d-object-array:elements-with-equal-str": "0-d object arrays holding large arrays that differ in the middle share a token (abbreviated repr)",
-    # 10. object arrays through _normalize_pickle: pickle bytes encode object identity / layout of nested arrays
-    "nondeterminism:pickle-roundtrip:object-array&pickle-bytes-differ": "np.array([b'b', 1], dtype=object) and its pickle round trip get different tokens",
-    "nondeterminism:deepcopy:object-array&pickle-bytes-differ": "an object array holding a non-contiguous ndarray and its deep copy get different tokens",
+        "known: same, frame also holds an F-ordered block",
+    "nondeterminism:pickle-roundtrip:object-array&pickle-bytes-differ":
+        "known: np.array([b'b', 1], dtype=object) and its pickle round trip get different tokens (pickle memo encodes identity)",
+    "nondeterminism:deepcopy:object-array&pickle-bytes-differ":
+        "known: an object array holding a non-contiguous ndarray and its deep copy get different tokens",
+    # found on the repaired tree (findings_proposed/C12.md section 11): items are sorted by str(key), and the
+    # str() of a frozenset key / element depends on its iteration order
+    "nondeterminism:equal-values:dict-key-is-unordered-container":
+        "a dict keyed by frozensets (or tuples holding them) and an equal one whose inner frozenset was built in another order get different tokens",
+    "nondeterminism:equal-values:set-element-is-unordered-container":
+        "a set of frozensets and an equal one whose inner frozenset was built in another order get different tokens",
+    "nondeterminism:equal-values:frozenset-element-is-unordered-container":
+        "a frozenset of frozensets and an equal one whose inner frozenset was built in another order get different tokens",
+    "nondeterminism:deepcopy:dict-key-is-unordered-container":
+        "a dict keyed by frozensets (or tuples holding them) and its deep copy get different tokens",
+    "nondeterminism:deepcopy:set-element-is-unordered-container":
+        "a set of frozensets and its deep copy get different tokens",
+    "nondeterminism:deepcopy:frozenset-element-is-unordered-container":
+        "a frozenset of frozensets and its deep copy get different tokens",
+    "nondeterminism:pickle-roundtrip:dict-key-is-unordered-container":
+        "a dict keyed by frozensets (or tuples holding them) and its pickle round trip get different tokens",
+    "nondeterminism:pickle-roundtrip:set-element-is-unordered-container":
+        "a set of frozensets and its pickle round trip get different tokens",
+    "nondeterminism:pickle-roundtrip:frozenset-element-is-unordered-container":
+        "a frozenset of frozensets and its pickle round trip get different tokens",
+    "nondeterminism:rebuild-equal-value:dict-key-is-unordered-container":
+        "a dict keyed by frozensets (or tuples holding them) and the same value rebuilt (NaN element: identity hash) get different tokens",
+    "nondeterminism:rebuild-equal-value:set-element-is-unordered-container":
+        "a set of frozensets and the same value rebuilt (NaN element: identity hash) get different tokens",
+    "nondeterminism:rebuild-equal-value:frozenset-element-is-unordered-container":
+        "a frozenset of frozensets and the same value rebuilt (NaN element: identity hash) get different tokens",
 }
 
 XPROC_SEEDS = ("0", "1", "random")
@@ -292,6 +298,14 @@ def _order_feature(v, w):
     if t is not type(w):
         return t.__name__
     if t in (dict, set, frozenset):
+        from vf.gen import c12_values as V
+
+        if any(V._has_unordered(k) for k in v) and V.diff(v, w) is None:
+            # the difference may sit inside a key / element: keys are matched by value
+            other = {k: k for k in w}
+            for k in v:
+                if k == k and k in other and _order_feature(k, other[k]):
+                    return t.__name__ + ("-key" if t is dict else "-element") + "-is-unordered-container"
         lv, lw = list(v), list(w)
         same_order = len(lv) == len(lw) and all(a is b or (type(a) is type(b) and a == b) for a, b in zip(lv, lw))
         if not same_order:
